@@ -106,23 +106,20 @@ Section Commands.
     rewrite E. unfold add_variable, vlookup. rewrite H. reflexivity.
   Qed.
 
-  (* INTEGERS / STRINGS: each name is bound to a fresh global variable holding 0 / "" -- WITHOUT the
-     "already declared" check: interpreter.py assigns self.vars[name] directly *)
-  Fixpoint bind_all (o : obj) (names : list str) (vars : list (str * obj)) : list (str * obj) :=
-    match names with [] => vars | n :: r => bind_all o r (vset n o vars) end.
-  Lemma declare_global_spec o names : forall st,
-    declare_global o (map IId names) st = Ok (set_vars st (bind_all o names (st_vars st))).
-  Proof.
-    induction names as [|n r IH]; intros st; cbn.
-    - destruct st; reflexivity.
-    - rewrite IH. reflexivity.
-  Qed.
-  Lemma integers_declares fuel st names :
-    run_command fuel st (Cmd nm_integers [map IId names]) = Ok (set_vars st (bind_all (OInt (VInt 0)) names (st_vars st))).
-  Proof. exact (declare_global_spec (OInt (VInt 0)) names st). Qed.
-  Lemma strings_declares fuel st names :
-    run_command fuel st (Cmd nm_strings [map IId names]) = Ok (set_vars st (bind_all (OStr (VStr [])) names (st_vars st))).
-  Proof. exact (declare_global_spec (OStr (VStr [])) names st). Qed.
+  (* INTEGERS / STRINGS: each name is bound to a new global holding 0 / "", appended to the variable table; a name that
+     is already bound is the "already declared" error, as for ENTRY and FUNCTION (fix C03-F2) *)
+  Lemma integers_declares fuel st names : fresh names (st_vars st) ->
+    run_command fuel st (Cmd nm_integers [map IId names]) =
+    Ok (set_vars st (st_vars st ++ map (fun n => (lower n, OInt (VInt 0))) names)).
+  Proof. exact (declare_ok (fun _ => OInt (VInt 0)) names st). Qed.
+  Lemma strings_declares fuel st names : fresh names (st_vars st) ->
+    run_command fuel st (Cmd nm_strings [map IId names]) =
+    Ok (set_vars st (st_vars st ++ map (fun n => (lower n, OStr (VStr []))) names)).
+  Proof. exact (declare_ok (fun _ => OStr (VStr [])) names st). Qed.
+  Lemma integers_redeclaration_is_error fuel st n r o : alookup str_eqb (lower n) (st_vars st) = Some o ->
+    run_command fuel st (Cmd nm_integers [IId n :: r]) = PyErr E_BST (-1) /\
+    run_command fuel st (Cmd nm_strings [IId n :: r]) = PyErr E_BST (-1).
+  Proof. intros H. split; exact (declare_bound _ n r st o H). Qed.
 
   (* MACRO {name} {"value"}: the macro table maps name to value (a later definition replaces an earlier one) *)
   Lemma macro_declares fuel st name value :
